@@ -265,6 +265,17 @@ void run_level(vf::Ctx& c)
     auto chk = user_weights ? hep::make_multi_channel_chkpt<T>(w0, minw, beta, std::mt19937(seed))
                             : hep::make_multi_channel_chkpt<T>(minw, beta, std::mt19937(seed));
     using Chk = decltype(chk);
+    // the start checkpoint may be written out and read back before the first iteration (beta, minimum weight and the first
+    // weights travel through text then)
+    bool const start_through_text = t.pick(3) == 0;
+    if (start_through_text)
+    {
+        chk.channels(channels);
+        std::stringstream ss;
+        chk.serialize(ss);
+        chk = hep::make_multi_channel_chkpt<T, std::mt19937>(ss);
+        c.label("start-checkpoint-through-text");
+    }
     auto const result = with_dist
         ? hep::multi_channel(hep::make_multi_channel_integrand<T>(fd, fam.dims, map, fam.map_dims, channels, hep::make_dist_params<T>(4, T(0), T(1), "x")), calls, chk,
               hep::callback<Chk>(hep::callback_mode::silent))
@@ -278,6 +289,15 @@ void run_level(vf::Ctx& c)
         for (std::size_t i = 0; i != channels; ++i)
         {
             VF_CHECK(c, (w0[i] == T(0)) == (prev[i] == T(0)), "C08:initial-disabled", "initial weights " << vf::show(prev) << " for user weights " << vf::show(w0));
+        }
+    }
+    if (!user_weights)
+    {
+        // default weights: 1 / channels in T
+        for (std::size_t i = 0; i != channels; ++i)
+        {
+            VF_CHECK(c, std::fabs(static_cast<long double>(prev[i]) * channels - 1.0L) <= 2 * vf::eps<T>(), "C08:initial-default", "default weight " << i << " of " << channels << " is "
+                << vf::show(prev[i]));
         }
     }
     // the initial weights pass through the same routine (unit data): every enabled channel is raised to the floor
